@@ -175,3 +175,43 @@ def run(ctx, rep):
                     rep.violation("C20.6", cons, f"`{ast.unparse(st)}` makes the result depend on the numeric type of one operand outside the NaN case: `Rz q 1.0` and `Rz q 1` compare unequal in one direction and equal in the other (equality is neither by value nor symmetric)", loc)
     if n6 == 0:
         rep.ok("C20.6", "ir:__eq__:numeric-type-tests", "no __eq__ result depends on a numeric type test")
+
+    # ------------------------------------------------------------ C20.7
+    rep.rule("C20.7", "a case split in __eq__ on a property of self is matched by a test of the same property on other (otherwise A == B is decided by A's case only and differs from B == A)", floor=1)
+    n7 = 0
+    for k in eq_classes:
+        eq = ix.classes[k].methods["__eq__"]
+        selfn, othern = eq.params[0], eq.params[1]
+        other_reads = {m.attr for m in ast.walk(eq.node) if isinstance(m, ast.Attribute) and isinstance(m.value, ast.Name) and m.value.id == othern}
+        for st in iter_stmts(eq.body):
+            if not isinstance(st, ast.If):
+                continue
+            t = st.test
+            if isinstance(t, ast.UnaryOp) and isinstance(t.op, ast.Not):
+                t = t.operand
+            if not (isinstance(t, ast.Attribute) and isinstance(t.value, ast.Name) and t.value.id == selfn):
+                continue
+            if not any(isinstance(x, ast.Return) for x in ast.walk(st)):
+                continue
+            n7 += 1
+            cons = cls_construct(ix, k, f"__eq__:case-split:{t.attr}")
+            loc = f"{eq.path}:{st.lineno}"
+            # the same property (or the fields it is computed from) must be read on other as well
+            # .. in a test (a read inside one of the branches does not make the split symmetric)
+            test_reads = {m.attr for s_ in iter_stmts(eq.body) if isinstance(s_, ast.If) for m in ast.walk(s_.test)
+                          if isinstance(m, ast.Attribute) and isinstance(m.value, ast.Name) and m.value.id == othern}
+            fields = tr_fields(ix, k, t.attr)
+            if t.attr in test_reads or (fields and fields <= {a.lstrip("_") for a in test_reads} | test_reads | {"_" + a for a in test_reads}):
+                rep.ok("C20.7", cons, f"`{othern}.{t.attr}` is consulted too", loc)
+            else:
+                rep.violation("C20.7", cons, f"`if {ast.unparse(st.test)}:` decides how the operands are compared without looking at `{othern}.{t.attr}`: a fundamental `register q[2]` equals the alias `map q r` (same name, same size) while the alias does not equal the register -- and the two denote different physical qubits", loc, witness="register r[2]; register q[2]   vs   register r[2]; map q r")
+    if n7 == 0:
+        rep.ok("C20.7", "ir:__eq__:case-splits", "no __eq__ branches on a property of self alone")
+
+
+def tr_fields(ix, k, attr):
+    """Fields a property of class k is computed from (empty set if attr is a plain field)."""
+    m = ix.find_method(k, attr)
+    if m is None or not m.is_property:
+        return set()
+    return {x.attr for x in ast.walk(m.node) if isinstance(x, ast.Attribute) and isinstance(x.value, ast.Name) and x.value.id == m.params[0]}
